@@ -235,8 +235,8 @@ def step (branch : Bool) (s : St) (b : Nat) : St :=
   | .brAfterLine l =>
     -- lcov 2.x marks an exception branch by an `e` before the block number: skipped, once
     -- (/repo 66f7aba); the block digits then start from 0 as without it
-    if b = 101 then { s with ctl := .brBlock l 0 }
-    else { s with ctl := digitsStep U64MAX 0 b (.brBlock l) (fun _ => .brAfterBlock l) }
+    { s with ctl := if b = 101 then .brBlock l 0
+                    else digitsStep U64MAX 0 b (.brBlock l) (fun _ => .brAfterBlock l) }
   | .brBlock l k => { s with ctl := digitsStep U64MAX k b (.brBlock l) (fun _ => .brAfterBlock l) }
   | .brAfterBlock l => { s with ctl := digitsStep U32MAX 0 b (.brBranch l) (.brAfterBranch l) }
   | .brBranch l n => { s with ctl := digitsStep U32MAX n b (.brBranch l) (.brAfterBranch l) }
